@@ -145,6 +145,9 @@ def spawn_fault_cases(tier):
         for kind in ("v", "e", "d", "a"):
             for post in ("drop", "await"):
                 cases.append(("future", sc, kind, post))
+    # the sender handed over as an lvalue with a throwing copy and a noexcept move (real scopes)
+    for sc in ("v2", "v1"):
+        cases += [("detached", sc, "v", "drop", "lv"), ("future", sc, "v", "drop", "lv"), ("future", sc, "a", "await", "lv")]
     # spawn_detached terminates the process only for an error completion
     cases += [("detached", "v2", "e", "fork"), ("detached", "v2", "v", "fork"),
               ("detached", "v2", "d", "fork"), ("detached", "v1", "e", "fork")]
